@@ -511,7 +511,7 @@ class MQTTProtocol(MQTTBaseProtocol):
         if len(self.factory.windowSubscribe[self.addr]) == self._window:
             raise MQTTWindowError("subscription requests exceeded limit", self._window)
         if not isinstance(request.topics, list):
-            raise TopicTypeError(type(topic))
+            raise TopicTypeError(type(request.topics))
         for (topic, qos) in request.topics:
             if not ( 0<= qos < 3):
                 raise QoSValueError("subscribe", qos)
@@ -525,7 +525,7 @@ class MQTTProtocol(MQTTBaseProtocol):
         if len(self.factory.windowUnsubscribe[self.addr]) == self._window:
             raise MQTTWindowError("unsubscription requests exceeded limit", self._window)
         if not isinstance(request.topics, list):
-            raise TopicTypeError(type(topic))
+            raise TopicTypeError(type(request.topics))
 
     # --------------------------
     # Helper methods (publisher)
